@@ -44,6 +44,11 @@ def main():
     res = {"repo_head": head, "commands": [], "when": time.strftime("%Y-%m-%d %H:%M:%S")}
     try:
         rc, out = sh("git -C %s apply %s" % (wt, patch))
+        if rc != 0:
+            # hook commits made after the change was written shift/alter nearby context lines: retry with fuzz
+            rc, out2 = sh("patch -p1 -F3 --no-backup-if-mismatch -d %s < %s" % (wt, patch))
+            out += out2
+            res["applied_with_fuzz"] = rc == 0
         res["patch_applies"] = rc == 0
         if rc != 0:
             res["apply_log"] = out[-1500:]
